@@ -397,7 +397,8 @@ func genClsSpec(r *Rand, mode string, nin int) *clsSpec {
 		case 8:
 			return "{neq {src} " + name() + "}"
 		case 9:
-			return Pick(r, []string{"{2}", "{line}", "{src}", "{nosuch}", "{suffix {0} a}", "{like {0} :}", "{like {src} 1}"})
+			return Pick(r, []string{"{2}", "{line}", "{src}", "{nosuch}", "{suffix {0} a}", "{like {0} :}", "{like {src} 1}",
+				"{like {#} v}", "{like {.#} k}", "{like {.} :}", "{not {like {#} 1}}"}) // JSON views of the match ({.} {#} {.#}, property C16)
 		case 10:
 			if c.matcher == "n" {
 				return Pick(r, []string{"{val}", "{eq {key} k}", "{key}", "{eq {all} a}"})
@@ -435,9 +436,10 @@ func genClsSpec(r *Rand, mode string, nin int) *clsSpec {
 	}
 	ex := []string{"{0}", "{0}", "{src}:{line}:{0}", "{src}:{line}:{0}", "{1}", "{1}", "{line}", "{src}", "{2}", "{0}{1}",
 		"{if {gt {line} 2} {0}}", "{src} {line}", " ", "{if {eq {src} " + name() + "} {0} {1}}", "{unless {eq {line} " + num() + "} {0}}",
-		"{line}:{1}", "\u00a0{1}", "{eq {line} " + num() + "}", "{select {0} 0}", "{substr {0} 0 2}"}
+		"{line}:{1}", "\u00a0{1}", "{eq {line} " + num() + "}", "{select {0} 0}", "{substr {0} 0 2}",
+		"{.}", "{#}", "{.#}", "{#.}", "{line} {#}", "{src}:{.#}"}
 	if c.matcher == "n" {
-		ex = append(ex, "{val}", "{key}", "{key}={val}", "{all}", "{src}/{key}")
+		ex = append(ex, "{val}", "{key}", "{key}={val}", "{all}", "{src}/{key}", "{.}", "{.#}", "{line}:{.}")
 	}
 	c.extract = Pick(r, ex)
 	// keep only configurations the real constructors accept
